@@ -46,5 +46,3 @@ pub mod c18;
 pub mod c19;
 #[cfg(any(feature = "c20", not(kani)))]
 pub mod c20;
-#[cfg(any(feature = "c99", not(kani)))]
-pub mod c99;
